@@ -1,11 +1,11 @@
 """C10 - this package's clients and servers interoperate (claimed for the polling client->server
 channel at contract level only; the composition over conversations is not mechanised)."""
-FUNCTIONS = ['client.Client._write_loop', 'payload.Payload.encode', 'payload.Payload.decode',
+FUNCTIONS = ['client.Client._write_loop', 'async_client.AsyncClient._write_loop', 'payload.Payload.encode', 'payload.Payload.decode',
              'packet.Packet.encode', 'packet.Packet.decode',
              'socket.Socket.handle_post_request', 'async_socket.AsyncSocket.handle_post_request']
 
 LEVEL_TEXT = ('the two ends of the polling client->server channel are under contract with a shared spec '
-              'function: the threaded client\'s write loop hands ONE body payload_text(batch) per batch, the '
+              'function: the clients\' write loops (threaded and asyncio) hands ONE body payload_text(batch) per batch, the '
               'batch being exactly the packets taken from its queue, in order (program-point obligations + '
               'loop invariants); Payload.decode rebuilds from such a text the same number of packets, each '
               'with the type and payload the text encodes, but only for at most 16 packets; Packet '
@@ -19,8 +19,8 @@ LEVEL_NOTE = ('per-function contracts only: that the text one side produces is t
               'conversations, the server->client direction, WebSocket, upgrade, heartbeats keeping an idle '
               'connection alive and the both-sides-see-one-disconnect clause are NOT decided (they are '
               'properties of the composition under all schedules, outside what per-function contracts '
-              'express); AsyncClient write loop not under contract')
+              'express)')
 NOT_DECIDED = ['composition over conversations and schedules (2x2 pairs, all transports)',
                'server->client direction', 'WebSocket and upgrade paths', 'heartbeat liveness',
-               'one disconnect on both sides', 'AsyncClient._write_loop']
+               'one disconnect on both sides']
 ASSUMPTIONS = [LEVEL_NOTE]
